@@ -187,11 +187,13 @@ def main():
             samples.append({"scenario": q, "result": {k: r[k] for k in ("data", "html") if k in r}})
     # ---- trace validation of the recorded protocol
     ntr = nacc = 0
-    for q, r in logs:
-        present = [n for n in q["names"] if n in q["assets"]]
+    rejected_corrupt = 0
+
+    def accepted(q, log):
+        nonlocal states, trans
         missing = [n for n in q["names"] if n not in q["assets"]]
         snames = {("S%d" % k): i + 1 for i, k in enumerate(q["sells"])}
-        evs = ", ".join('[op |-> "%s", a |-> "%s", s |-> %d]' % (c["op"], c.get("a", ""), snames.get(c.get("s"), 0)) for c in r["log"])
+        evs = ", ".join('[op |-> "%s", a |-> "%s", s |-> %d]' % (c["op"], c.get("a", ""), snames.get(c.get("s"), 0)) for c in log)
         data = "---- MODULE BacktestTraceData ----\nTraceLog == <<%s>>\n====\n" % evs
         cfg = bt_cfg(q["names"], missing, len(q["sells"]), min(q["workers"], 4), True, "INVARIANTS Accepted\n").replace(
             "SPECIFICATION Spec", "INIT TraceInit\nNEXT TraceNext")
@@ -199,14 +201,30 @@ def main():
                     workers=1, timeout=600, dfs=True)
         states += rt.distinct
         trans += rt.generated
+        return any(t == "ACC" for t, _ in rt.prints)
+
+    for qi, (q, r) in enumerate(logs):
         ntr += 1
-        if any(t == "ACC" for t, _ in rt.prints):
+        if accepted(q, r["log"]):
             nacc += 1
         else:
             V.violation({"symptom": "protocol"},
                         "scenario %d W=%d: the calls the report received are not a behaviour of spec/Backtest.tla: %s" %
                         (q["id"], q["workers"], " ".join("%s(%s%s)" % (c["op"], c.get("a", ""), "," + c["s"] if c.get("s") else "") for c in r["log"])[:500]),
                         {"scenario": q, "log": r["log"]})
+        if qi < 2:
+            # binding self-test: a log with one write dropped, and one with the end notification moved forward, must be rejected
+            lg = list(r["log"])
+            wi = [i for i, c in enumerate(lg) if c["op"] == "write"]
+            variants = []
+            if wi:
+                variants.append(lg[:wi[0]] + lg[wi[0] + 1:])
+            if len(lg) >= 3 and lg[-1]["op"] == "end":
+                variants.append(lg[:-2] + [lg[-1], lg[-2]])
+            for v in variants:
+                if accepted(q, v):
+                    raise vlib.Machinery("BacktestTrace accepts a corrupted protocol log: the trace specification binds nothing")
+                rejected_corrupt += 1
     # ---- race detector
     race_found = None
     rq = []
@@ -255,7 +273,7 @@ def main():
                 "closes, stub strategies selling at a given snapshot, old snapshots outside the look-back window, a name the repository "
                 "does not hold) x reports {recording, DataReport, HTMLReport} x W; comparator witnesses from TLC rendered by the "
                 "real HTMLReport; every scenario is non-trivial" % (len(combos), len(scs)),
-        "protocol_logs_validated": ntr, "protocol_logs_accepted": nacc, "comparator_weak_order": cmp_ok, "comparator_witnesses": len(wits),
+        "protocol_logs_validated": ntr, "protocol_logs_accepted": nacc, "corrupted_protocol_logs_rejected": rejected_corrupt, "comparator_weak_order": cmp_ok, "comparator_witnesses": len(wits),
         "model_reaches_data_race": model_race, "race_detector_runs": len(rq), "exhaustive": False, "known_findings_hit": V.hit, **clicov},
         time.time() - t0, len(V.new),
         assumptions=["stub strategies (buy on the first snapshot, sell on a scripted one) stand for arbitrary strategies: the backtest "
